@@ -300,7 +300,20 @@ def chain_walk(run, F, PV, C):
 
 
 def _path_iter(e):
-    """`for x in <e>` over the path list: (list name, visits it back to front?)"""
+    """`for x in <e>` over the path list: (list name, visits it back to front?, an element visited before the list - `[top] + L[::-1]` - or None)"""
+    if isinstance(e, ast.BinOp) and isinstance(e.op, ast.Add) and isinstance(e.left, ast.List) and len(e.left.elts) == 1 and isinstance(e.left.elts[0], ast.Name):
+        r = e.right
+        if isinstance(r, ast.Call) and norm(r.func) == "list" and len(r.args) == 1 and not r.keywords:
+            r = r.args[0]
+        sub = _path_iter(r)
+        if sub is not None and sub[2] is None and sub[1]:
+            return sub[0], True, e.left.elts[0].id
+        return None
+    sub = _path_iter2(e)
+    return None if sub is None else sub + (None,)
+
+
+def _path_iter2(e):
     if isinstance(e, ast.Call) and norm(e.func) == "reversed" and len(e.args) == 1 and isinstance(e.args[0], ast.Name) and not e.keywords:
         return e.args[0].id, True
     if isinstance(e, ast.Subscript) and isinstance(e.value, ast.Name) and norm(e.slice) == "::-1":
@@ -316,7 +329,7 @@ def _chain_walk_list(run, fn, g, C, tloop, TGT, ivc, climb, vfor, root_param):
     P, A = run.P, run.A
     from sa.decide import subst
     X, Y = vfor.target.id, ivc.args[0].id
-    L, backwards = _path_iter(vfor.iter)
+    L, backwards, TOP = _path_iter(vfor.iter)
     run.require(isinstance(ivc.func.value, ast.Name) and ivc.func.value.id == X, "validate_and_get_values: is_valid is not called on the element the loop visits (idiom not understood)")
     ch, ca = _while_nodes(g, climb)
     run.require(ch is not None, "validate_and_get_values: climb loop structure not understood")
@@ -375,6 +388,11 @@ def _chain_walk_list(run, fn, g, C, tloop, TGT, ivc, climb, vfor, root_param):
     CUR = state.get("CUR")
     run.require(CUR is not None, "validate_and_get_values: the climb's test of signed_by against the root was not identified (idiom not understood)")
     cursor = CUR != f"{L}[-1]"
+    # `for e in [top] + L[::-1]`: the top element is visited first without being put on the list - only the cursor form leaves it outside the list
+    run.check("R1", TOP is None or (cursor and TOP == CUR), "an element visited ahead of the list is the top element the climb stopped at",
+              key="validate_and_get_values|handover|top-first", where=fn.loc(vfor),
+              message=f"the validation visits `{TOP}` before the collected path, but the climb leaves the element signed by the root in `{CUR}`"
+                      + ("" if cursor else " (already the last element of the list: it would be verified twice)"))
     # per target: the list starts as [] (cursor form: cursor = the target's element) or as [the target's element]
     for lf in Walker(A, fn, C, lambda e: None).walk(ft[0], stops={ch}):
         run.check("R1", lf.kind == "stop", "every target reaches the climb", key="validate_and_get_values|init|reaches-climb", where=fn.loc(tloop),
@@ -397,7 +415,7 @@ def _chain_walk_list(run, fn, g, C, tloop, TGT, ivc, climb, vfor, root_param):
                   key="validate_and_get_values|current_certifier|root-init", where=fn.loc(),
                   message=f"validation of a target starts with certifier `{norm(got) if got is not None else Y + ' (left over from the previous target)'}`, not with the `{root_param}` parameter")
         lcalls = [norm(v) for k, st, v in lf.effects if k == "expr" and isinstance(v, ast.Call) and isinstance(v.func, ast.Attribute) and is_name(v.func.value, L)]
-        want_calls = ([f"{L}.append({CUR})"] if cursor else []) + ([] if backwards else [f"{L}.reverse()"])
+        want_calls = ([f"{L}.append({CUR})"] if cursor and TOP is None else []) + ([] if backwards else [f"{L}.reverse()"])
         rebound = [nm for nm in ((L, CUR) if cursor else (L,)) if nm in lf.env or nm in lf.bind]
         run.check("R1", lcalls == want_calls and not rebound, "between the loops the path is completed with the top element (cursor form), put in root-first visiting order, and otherwise untouched",
                   key="validate_and_get_values|handover|untouched", where=fn.loc(),
